@@ -30,6 +30,13 @@ func SetVerifHook(fn func(point string, subject any)) {
 }
 
 func verifPoint(point string, subject any) {
+	if point == "cmd.refused" {
+		// a command refused because the server is closing is part of the recorded conversation
+		if r, ok := subject.(*verifRecorder); ok {
+			r.note("refused")
+		}
+	}
+
 	if fn := verifHook.Load(); fn != nil {
 		(*fn)(point, subject)
 	}
@@ -76,6 +83,14 @@ func (r *verifRecorder) record(dir string, b []byte, err error) {
 
 	if err != nil {
 		fmt.Fprintf(r.file, "{\"d\":%q,\"err\":%q}\n", dir, err.Error())
+	}
+}
+
+func (r *verifRecorder) note(what string) {
+	r.mu.Lock()
+	defer r.mu.Unlock()
+	if r.file != nil {
+		fmt.Fprintf(r.file, "{\"d\":%q}\n", what)
 	}
 }
 
